@@ -94,6 +94,8 @@ _IGNORED_STR_CALLS = ("warn", "warning", "error", "info", "debug")
 
 def _diff(a, b, names: dict, rnames: dict, out: list, in_msg=False) -> bool:
     """False if the skeletons differ.  Leaf differences are appended to out."""
+    if isinstance(b, ast.Name) and b.id.startswith("_any"):
+        return True  # wildcard in the expected form: anything may stand here
     if type(a) is not type(b):
         # operator nodes are leaves
         if isinstance(a, (ast.operator, ast.cmpop, ast.unaryop, ast.boolop)) and isinstance(b, type(a).__mro__[1]):
@@ -131,6 +133,41 @@ def _diff(a, b, names: dict, rnames: dict, out: list, in_msg=False) -> bool:
         return _diff(a.value, b.value, names, rnames, out, in_msg)
     if isinstance(a, ast.arg):
         return True
+    if isinstance(a, (ast.ListComp, ast.SetComp, ast.DictComp, ast.GeneratorExp)) and not getattr(a, "_scoped", False):
+        # comprehension variables are local to the comprehension: renamed independently
+        ta = {x.id for g in a.generators for x in ast.walk(g.target) if isinstance(x, ast.Name)}
+        tb = {x.id for g in b.generators for x in ast.walk(g.target) if isinstance(x, ast.Name)}
+        n2 = {k: v for k, v in names.items() if k not in ta and v not in tb}
+        r2 = {k: v for k, v in rnames.items() if k not in tb and v not in ta}
+        a._scoped = True
+        try:
+            # generators first (they bind), then the element
+            ok = True
+            if len(a.generators) != len(b.generators):
+                return False
+            for ga, gb in zip(a.generators, b.generators):
+                if not _diff(ga, gb, n2, r2, out, in_msg):
+                    ok = False
+                    break
+            if ok:
+                rest = [(f, v) for f, v in ast.iter_fields(a) if f != "generators"]
+                for f, va in rest:
+                    vb = getattr(b, f)
+                    if not _diff(va, vb, n2, r2, out, in_msg):
+                        ok = False
+                        break
+            if ok:
+                # names that are not comprehension variables belong to the enclosing scope
+                for k, v in n2.items():
+                    if k in ta or v in tb:
+                        continue
+                    if names.get(k, v) != v or rnames.get(v, k) != k:
+                        out.append(("name", k, v))
+                    names.setdefault(k, v)
+                    rnames.setdefault(v, k)
+            return ok
+        finally:
+            a._scoped = False
     msg = in_msg
     if isinstance(a, ast.Raise):
         msg = True
